@@ -1,3 +1,5 @@
+//go:build all || c08
+
 package props
 
 import (
@@ -35,29 +37,6 @@ func c08Schedules(rng *core.RNG, thorough bool) []string {
 	}
 	for i := 0; i < n; i++ {
 		s = append(s, "random17", "random5000")
-	}
-	return s
-}
-
-func c08Source(data []byte, schedule string, seed uint64) *src.Source {
-	s := src.New(data)
-	rg := core.NewRNG(int64(seed>>1), "c08sched")
-	switch schedule {
-	case "all":
-	case "data+eof":
-		s.DataWithEnd()
-	case "1+data+eof":
-		s.Sizes(1).DataWithEnd()
-	case "4096+data+eof":
-		s.Sizes(4096).DataWithEnd()
-	case "random17":
-		s.Random(17, rg.Intn)
-	case "random5000":
-		s.Random(5000, rg.Intn)
-	default:
-		var n int
-		fmt.Sscanf(schedule, "%d", &n)
-		s.Sizes(n)
 	}
 	return s
 }
@@ -165,16 +144,6 @@ func c08CheckLoader(data []byte, loader, schedule string, seed uint64) (kind, ms
 		return "differs", fmt.Sprintf("%s.Load: all-at-once gives %s; schedule %s gives %s", loader, sumStr(base), schedule, sumStr(got)), short
 	}
 	return "", "ok", short
-}
-
-func sumStr(s mdSummary) string {
-	if s.Panic != "" {
-		return "panic(" + s.Panic + ")"
-	}
-	if !s.OK {
-		return "error(" + s.ErrText + ")"
-	}
-	return fmt.Sprintf("{%s %dx%d depth %d icc=%d bytes hash %x iccErr=%v}", s.Format, s.W, s.H, s.Depth, s.ICCLen, s.ICCHash, s.ICCErr)
 }
 
 // c08CheckICC compares the ICC reader behind a front with the bytes.Reader
